@@ -364,6 +364,8 @@ def run_check(prop, tier, seed):
 
     if hasattr(mod, "selftest"):
         mod.selftest()
+    import shutil
+    shutil.rmtree(os.path.join(OUT, "replays", prop), ignore_errors=True)
 
     # 1. regression / witness replay tier
     regdir = os.path.join(VERIF, "regress", prop)
